@@ -284,6 +284,13 @@ def run(ctx):
     r0 = ctx.tlc("ProfileHist", hcfg(True, 4), name="hist-model-stale", workers=2, coverage=False)
     if r0.ok:
         raise core.MachineryError("ProfileHist accepts a cache that is not invalidated by every modification (vacuous?)")
+    # interleavings of any length: the cache protocol's inductive invariant, discharged symbolically (spec/apalache/ProfileHistInd.tla)
+    if not ctx.apalache("ProfileHistInd", init="Init", inv="IndInv", length=0, name="hist-ind-base"):
+        raise core.MachineryError("ProfileHistInd: the initial state violates the inductive invariant")
+    if not ctx.apalache("ProfileHistInd", init="IndInit", inv="IndInv", length=1, name="hist-ind-step"):
+        raise core.MachineryError("ProfileHistInd: IndInv is not inductive")
+    if ctx.apalache("ProfileHistInd", init="IndInit", inv="IndInv", length=1, next_="NextStale", name="hist-ind-step-stale"):
+        raise core.MachineryError("ProfileHistInd: the induction step accepts the selectively invalidated cache (vacuous?)")
     prod_rows = core.tlc_table(ctx, "ProfileIO", "", name="prod")
     _G["prod"] = {row["ctx"]: list(row["stmts"]) for row in prod_rows}
 
